@@ -40,15 +40,15 @@ PROP = {
     ],
     "units": [
         {"name": "c15hq", "pkg": "./internal/pkg/source/hq", "run": "^TestVerif_C15_", "kind": "rapid", "toolchain": "go126",
-         "facets": ["C15/hq", "C15/hops-path"], "checks": (1500, 8000), "shards": (4, 16), "timeout": (600, 3000)},
+         "facets": ["C15/hq", "C15/hops-path"], "checks": (1500, 6000), "shards": (4, 16), "timeout": (600, 3000)},
         # the same facet with the race detector in the thorough tier (a data race report is a violation); a token run in quick
         {"name": "c15hqrace", "pkg": "./internal/pkg/source/hq", "run": "^TestVerif_C15_HQ$", "kind": "rapid", "toolchain": "go126",
-         "facets": ["C15/hq"], "checks": (50, 2500), "shards": (1, 8), "race": (False, True), "timeout": (600, 3000)},
+         "facets": ["C15/hq"], "checks": (50, 1500), "shards": (1, 8), "race": (False, True), "timeout": (600, 3000)},
         {"name": "c15kf1", "pkg": "./internal/pkg/source/hq", "run": "^TestVerifKF_C15_NonUTF8Outlink$", "kind": "kf", "toolchain": "go126",
          "finding": "C15-hq-non-utf8-outlink-mangled", "facets": [], "checks": (1, 1), "shards": (1, 1)},
         {"name": "c15lq", "pkg": "./internal/pkg/source/lq", "run": "^TestVerif_C15_LQModel$", "kind": "rapid", "toolchain": "go126",
-         "facets": ["C15/lq-model"], "checks": (1000, 6000), "shards": (4, 16), "timeout": (600, 3000)},
+         "facets": ["C15/lq-model"], "checks": (1000, 5000), "shards": (4, 16), "timeout": (600, 3000)},
         {"name": "c15lqvt", "pkg": "./internal/pkg/source/lq", "run": "^TestVerif_C15_LQPipeline$", "kind": "rapid", "toolchain": "go126",
-         "facets": ["C15/lq-pipeline"], "checks": (300, 1800), "shards": (4, 16), "timeout": (600, 3000)},
+         "facets": ["C15/lq-pipeline"], "checks": (300, 1200), "shards": (4, 16), "timeout": (600, 3000)},
     ],
 }
